@@ -1,6 +1,6 @@
 CONSTANTS
   SampleMod = 1
-  MaxOps = 2
+  MaxOps = 1
   Scripted = FALSE
   ExcuseKF = TRUE
   Dump = FALSE
